@@ -501,7 +501,7 @@ pub fn apply_fault(e: usize, t: &mut Tape, cs: &mut ConfStream) -> Option<Fault>
 }
 
 fn case(t0: &mut Tape, w: &Worker) -> CaseResult {
-    let mut ot = t0.fork(48);
+    let mut ot = t0.fork(140);
     let mut cs = gen::gen_conf_stream(t0, &ConfOpts { max_links: 4, max_hbfs: 3, big_16: 1, ..Default::default() });
     let e = ot.below(N_ENTRIES);
     let mut out = CaseOut::default();
@@ -542,12 +542,8 @@ fn case(t0: &mut Tape, w: &Worker) -> CaseResult {
         args.push(n.to_string());
         // a custom-checks file that configures what the data has anyway (the RDH version of the stream) changes nothing:
         // every documented rule must still be detected with it
-        let one_version = cs.stream.links.iter().all(|l| l.packets.iter().all(|p| p.rdh.version == bytes[0]));
-        if ot.chance(1, 4) && one_version {
-            let cfile = w.write("checks.toml", format!("rdh_version = {}\n", bytes[0]).as_bytes());
-            args.push("--checks-toml".into());
-            args.push(cfile.display().to_string());
-        }
+        let (extra, _labels) = neutral_extras(&mut ot, w, &cs.stream, lay.packets.len());
+        args.extend(extra);
         let (spec, o) = case.run(args, stdin);
         if let Some(f) = crash_check(&spec, &o, &bytes, &[0, 1, n as i32]) {
             return Err(f);
@@ -627,6 +623,6 @@ pub fn build() -> Property {
             "RDH0 fields of the very first packet (documented pre-check), header-id change on a link's first packet and page-counter entries inside a link's first two packets are outside the domain".into(),
             "FEE-ID faults are not asserted in stave mode (a different FEE ID is a different stave there)".into(),
         ],
-        phases: vec![Phase { name: "cli_fault_catalogue", kind: PhaseKind::Gen { cases: (8000, 60000), tape_len: 48 + 64 + 2000 + 4 * 4000 + 14000, f: Box::new(case) }, threads: 16 }],
+        phases: vec![Phase { name: "cli_fault_catalogue", kind: PhaseKind::Gen { cases: (8000, 60000), tape_len: 140 + 64 + 2000 + 4 * 4000 + 14000, f: Box::new(case) }, threads: 16 }],
     }
 }
